@@ -200,6 +200,13 @@ class CraftGen(rec.RecGen):
         self._log("uniform", a, k, out)
         return out
 
+    def random(self, *a, **k):
+        out = np.random.Generator.random(self, *a, **k)
+        if self.craft is not None and np.ndim(out) == 1:
+            out = self.craft(self, np.array(out, copy=True))
+        self._log("random", a, k, out)
+        return out
+
 
 def run_call(pr, lib, profile, gen, method, kwargs, pool=None, source="object"):
     """run TheJoker.<method>(data, prior_samples, **kwargs) on the proxied helper; returns (result | exception, raised?)
